@@ -44,7 +44,7 @@ FMODES = ["755", "644", "600", "4755", "2755", "1777", "6755", "750", "0", "444"
 TAMS = ["dig0", "dig1", "swapm", "dotdot", "deepdot", "abs", "symlink", "hardlink", "nosrc", "tierb", "nomanifest",
         "dupl", "dups", "duplr", "dupsr", "dupman", "dupl", "dupman"]
 AUX = [100, 101, 102, 103, 104]   # node ids of files outside the artifact directories (symlink targets)
-SIGS = ["flip", "none", "wkey", "garb"]
+SIGS = ["flip", "none", "wkey", "garb", "flip1", "flip3", "flip5", "flip7", "flip9"]   # flipN: one bit at N/9 of the archive
 HEALTH = ["failed", "degraded", "invalid", "stale", "stalep"]   # stale / stalep: right state, version string off by a suffix / a prefix
 
 
@@ -63,7 +63,8 @@ def fspec(rng, p):
     if r < 0.18:
         return None
     if r < 0.62:
-        return "r%d.%s" % (0 if rng.random() < 0.04 else 10 + p, rng.choice(FMODES))
+        own = rng.choice(["", "", "@1001-1002", "@0-7", "@65534-65534"])
+        return "r%d.%s%s" % (0 if rng.random() < 0.04 else 10 + p, rng.choice(FMODES), own)
     if r < 0.92:
         return "s%d" % link_target(rng, p)
     return "d"
@@ -88,7 +89,7 @@ def mk_apply(to, arts, prev="-", sig="ok", tam="none", hook="n", exp="-", force=
              ha="ok", hr="ok", ob=(), rob=()):
     return ("apply to=%d prev=%s sig=%s tam=%s hook=%s exp=%s force=%d arts=%s fail=%s crash=%s ha=%s hr=%s ob=%s rob=%s" % (
         to, prev, sig, tam, hook, exp, force,
-        ",".join("%d:%d:%s:%s" % a for a in arts),
+        ",".join(":".join(map(str, a)) for a in arts),
         ",".join(map(str, fail)) if fail else "-", crash if crash else "-", ha, hr,
         ",".join("%d:%s" % o for o in ob) if ob else "-", ",".join("%d:%s" % o for o in rob) if rob else "-"))
 
@@ -107,7 +108,10 @@ def rand_arts(rng, gen):
     arts = []
     for p in ps:
         m = "b" if rng.random() < 0.05 else rng.choice(MODES)
-        arts.append((p, 0 if rng.random() < 0.04 else 20 + 10 * gen + p, m, rng.choice("oovbn")))
+        a = (p, 0 if rng.random() < 0.04 else 20 + 10 * gen + p, m, rng.choice("oovbn"))
+        if rng.random() < 0.3:
+            a = a + rng.choice([(0, 0), (1234, -1), (-1, 4321), (1001, 1002), (65534, 7)])
+        arts.append(a)
     return arts
 
 
@@ -177,9 +181,9 @@ def rand_history(rng):
             if rng.random() < 0.18:
                 kw["tam"] = rng.choice(TAMS)
                 if kw["tam"] == "dupman" and len(arts) >= 2:
-                    arts[1] = (arts[1][0], arts[0][1], arts[1][2], arts[1][3])
-            if rng.random() < 0.07:
-                kw["hook"] = rng.choice("hm")
+                    arts[1] = (arts[1][0], arts[0][1]) + tuple(arts[1][2:])
+            if rng.random() < 0.1:
+                kw["hook"] = rng.choice("hmp")
             if rng.random() < 0.08:
                 kw["exp"] = str(rng.choice([guess, guess, rng.randrange(NVER)]))
             if rng.random() < 0.22:
@@ -202,7 +206,7 @@ def rand_history(rng):
             if rng.random() < 0.4:
                 kw["tam"] = rng.choice(TAMS)
                 if kw["tam"] == "dupman" and len(arts) >= 2:
-                    arts[1] = (arts[1][0], arts[0][1], arts[1][2], arts[1][3])
+                    arts[1] = (arts[1][0], arts[0][1]) + tuple(arts[1][2:])
             ops.append(mk_apply(rng.randrange(NVER), arts, **kw).replace("apply ", "plan ", 1))
         elif r < 0.93:
             ops.append("clear")
@@ -338,6 +342,17 @@ def systematic():
             out.append("h 1 %s ; %s ; clear ; %s ; %s" % (fsm, mk_apply(2, arts_m, **kw), mk_apply(2, arts_m, force=1), mk_rollback()))
         out.append("h 1 %s ; %s ; %s ; %s" % (fsm, mk_apply(2, arts_m), mk_rollback(rob=[(1, "s")]), mk_rollback()))
         out.append("h 1 %s ; %s ; %s ; clear ; %s" % (fsm, mk_apply(2, arts_m), mk_rollback(rob=[(0, "s")], crash=44), mk_rollback()))
+    # keys that differ in exactly one component: node 0 = inst/a0 and node 3 = inst/sub/a0 share the BASENAME, nodes 0,1,2
+    # share the DIRECTORY; tarball members m0 / bin/m / plugins/m share basenames across directories.  Owners: files owned by
+    # three different uid/gid pairs, manifests asking for root, for other ids, for uid only / gid only, for nothing.
+    fso = "0:r10.755@1001-1002,1:r11.4755@0-7,3:r13.600@65534-65534,2:s72@1001-7"
+    own_sets = [[(0, 20, "0755", "o", 0, 0), (3, 23, "0644", "n", 1234, 4321), (1, 21, "e", "v", -1, 7)],
+                [(3, 23, "0755", "o", 1001, -1), (0, 20, "0644", "n"), (2, 22, "600", "n", 65534, 65534)],
+                [(0, 10, "0755", "o", 1234, 1234), (3, 13, "600", "n", 0, 0)]]       # same bytes, same mode, other owner
+    for arts_o in own_sets:
+        for kw in (dict(), dict(ha="failed"), dict(fail=[8, 12]), dict(crash=30), dict(ob=[(arts_o[1][0], "s")], crash=51),
+                   dict(ob=[(arts_o[1][0], "o")]), dict(crash=35)):
+            out.append("h 1 %s ; %s ; clear ; %s ; %s" % (fso, mk_apply(2, arts_o, **kw), mk_rollback(), mk_apply(2, arts_o, hook="p")))
     # never-upgraded box (no current-manifest.yaml: version discovered from the binary = id 63)
     out.append("h 63 %s ; %s ; %s ; %s" % (fs0, mk_apply(2, a2f, prev="63o"), mk_rollback(), mk_apply(2, a2f, prev="63o", ha="failed")))
     out.append("h 63 %s ; %s ; %s ; %s" % (fs0, mk_apply(2, a2f, fail=[36]), mk_rollback(), mk_apply(2, a2f, force=1)))
@@ -455,6 +470,10 @@ def classify(case, impl, model):
             return "P", "member name accepted by safeTarEntryPath that the model rejects: impl=%r" % impl
         return "G", "safeTarEntryPath differs: impl=%r model=%r" % (impl, model)
     si, sm, ops = segs(impl), segs(model), ops_of(case)
+    if "own=BAD" in impl:
+        k = [i for i, s_ in enumerate(si) if "own=BAD" in s_][0]
+        return "P", ("op #%d is reported as %s but an artifact is not OWNED (uid/gid) as the manifest says / as before the upgrade: "
+                     "impl=%r" % (k, fields(si[k])["res"], si[k]))
     if "!commit-order" in impl:
         return "P", ("ApplyOne no longer lands current-manifest.yaml before the journal's completed phase (renames observed "
                      "between stage 12 and 13); a death between the two now leaves a state the label-35 cases do not "
@@ -544,7 +563,7 @@ def shrink(case):
 
 
 def distribution(cases, impl):
-    d = {"same_bytes_other_mode_artifacts": 0, "stale_staging_files": 0, "histories": 0, "names": 0, "names_accepted": 0, "ops": {}, "results": {}, "end_phase": {}, "monitor": {},
+    d = {"artifacts_with_uid_gid": 0, "monitor_own": {}, "same_bytes_other_mode_artifacts": 0, "stale_staging_files": 0, "histories": 0, "names": 0, "names_accepted": 0, "ops": {}, "results": {}, "end_phase": {}, "monitor": {},
          "tamper": {}, "sig": {}, "fail_labels_requested": {}, "crash_labels_requested": {}, "crash_labels_fired": {},
          "with_obstacle": 0, "force": 0, "phases_seen": {}}
 
@@ -563,6 +582,7 @@ def distribution(cases, impl):
             f = fields(s)
             inc(d["results"], f["res"])
             inc(d["monitor"], f.get("mon", "?"))
+            inc(d["monitor_own"], f.get("own", "?"))
             inc(d.setdefault("monitor_ver", {}), f.get("ver", "?"))
             inc(d.setdefault("monitor_rm", {}), f.get("rm", "?"))
             if t[0] in ("apply", "rollback"):
@@ -570,9 +590,10 @@ def distribution(cases, impl):
                 if t[0] == "apply":
                     inc(d["tamper"], kv["tam"])
                     init = dict(x.split(":", 1) for x in c.split()[2].split(",")) if c.split()[2] != "-" else {}
+                    d["artifacts_with_uid_gid"] += sum(1 for a in kv["arts"].split(",") if a.count(":") >= 5)
                     for a in kv["arts"].split(","):
-                        pa, ca, ma, _ = a.split(":")
-                        cur0 = init.get(pa, "")
+                        pa, ca, ma = a.split(":")[:3]
+                        cur0 = init.get(pa, "").split("@")[0]
                         if cur0.startswith("r") and cur0[1:].split(".")[0] == ca and ma not in ("b",) and \
                                 cur0.split(".")[1].lstrip("0") != (ma if ma != "e" else "644").lstrip("0"):
                             d["same_bytes_other_mode_artifacts"] += 1
